@@ -27,7 +27,7 @@ var R = hx.NewRecorder("C06", "cases = (server mode gm|auto|tls, client kind gm|
 	"non-trivial = handshake completed with data moved each way, or a forbidden combination that reached the peer's first flight; distinct by hash of the case description")
 
 func TestMain(m *testing.M) {
-	R.Require("mode:gm", "mode:auto", "mode:tls", "suite:e013", "suite:e053", "tls10", "tls11", "tls12", "auth:0", "auth:1", "auth:2", "auth:3", "auth:4",
+	R.Require("readbuf<record", "mode:gm", "mode:auto", "mode:tls", "suite:e013", "suite:e053", "tls10", "tls11", "tls12", "auth:0", "auth:1", "auth:2", "auth:3", "auth:4",
 		"clientcert:untrusted", "clientcert:callback_untrusted", "certsource:callbacks", "stdlib_client", "stdlib_server", "passive_decoder", "payload>16KiB", "fragment==1", "must_fail", "must_succeed")
 	hx.Main(m, R)
 }
@@ -50,6 +50,7 @@ type hsCase struct {
 	SkipVerify   bool
 	CSend, SSend int
 	CFrag, SFrag []int
+	CRead, SRead int // Read buffer sizes
 }
 
 func (c hsCase) String() string {
@@ -189,6 +190,8 @@ func drawCase(t *rapid.T) hsCase {
 		}
 	}
 	c.CFrag, c.SFrag = frag("cfrag"), frag("sfrag")
+	rb := rapid.SampledFrom([]int{1, 7, 100, 1000, 4096, 16384, 16384, 70000})
+	c.CRead, c.SRead = rb.Draw(t, "cread"), rb.Draw(t, "sread")
 	return c
 }
 
@@ -474,10 +477,10 @@ func stdRoots() *stdx509.CertPool {
 }
 
 type stdResult struct {
-	gm      tlsx.Endpoint
-	stdErr  error
-	stdRecv []byte
-	stdVers uint16
+	gm       tlsx.Endpoint
+	stdErr   error
+	stdRecv  []byte
+	stdVers  uint16
 	stdSuite uint16
 	stdPanic *hx.PanicInfo
 }
@@ -566,7 +569,11 @@ func runWithStd(c hsCase, ccfg, scfg *gmtls.Config, csend, ssend []byte) *stdRes
 				}
 				conn.CloseWrite()
 			})
-			buf := make([]byte, 16384)
+			rb := c.SRead
+			if c.Peer == "stdserver" {
+				rb = c.CRead
+			}
+			buf := make([]byte, rb)
 			for {
 				n, err := conn.Read(buf)
 				ep.Received = append(ep.Received, buf[:n]...)
@@ -639,6 +646,9 @@ func TestC06_Handshakes(t *testing.T) {
 		if c.CSend > 16384 || c.SSend > 16384 {
 			cl = append(cl, "payload>16KiB")
 		}
+		if (c.CRead < 1000 && c.SSend > c.CRead) || (c.SRead < 1000 && c.CSend > c.SRead) {
+			cl = append(cl, "readbuf<record")
+		}
 		for _, f := range append(append([]int{}, c.CFrag...), c.SFrag...) {
 			if f == 1 {
 				cl = append(cl, "fragment==1")
@@ -694,7 +704,7 @@ func TestC06_Handshakes(t *testing.T) {
 			R.Case(gmOK && stdOK, hx.HashKey(c.String()), cl...)
 			return
 		}
-		r := tlsx.Run(ccfg, scfg, tlsx.Script{ClientSend: csend, ServerSend: ssend, ClientFrags: c.CFrag, ServerFrags: c.SFrag})
+		r := tlsx.Run(ccfg, scfg, tlsx.Script{ClientSend: csend, ServerSend: ssend, ClientFrags: c.CFrag, ServerFrags: c.SFrag, ClientReadBuf: c.CRead, ServerReadBuf: c.SRead})
 		if r.Client.Panic != nil || r.Server.Panic != nil {
 			t.Fatalf("endpoint panicked\n%s\n%s", r.Describe(), desc)
 		}
